@@ -118,6 +118,11 @@ func (rc *RangeCache) setRange(ctx context.Context, start, ln int64, value []byt
 	if len(value) != int(end-start) {
 		return fmt.Errorf("invalid value length: %d", len(value))
 	}
+	if rc.cache == nil {
+		// Close() was called (the epoch was removed or replaced) while a reader was still at work:
+		// there is nothing to store into; writing into the nil map would panic.
+		return fmt.Errorf("range cache is closed")
+	}
 	{
 		for r, rv := range rc.cache {
 			if ctx.Err() != nil {
